@@ -169,6 +169,31 @@ pub fn c17(args: &Args) {
         out.emit(babai_event(&f, &g, &thin(&f), &thin(&g), "FG-thinned-fg"));
     }
     out.emit(babai_event(&[4, 1], &[1, 2], &[3, 1], &[1, 1], "FG-smaller-than-fg"));
+    // ill-conditioned (f, g): tiny at some roots of x^n + 1, so the quotient has coefficients far beyond those of (F, G)
+    for &n in &[16usize, 256] {
+        let mut f1 = vec![0i64; n]; // (1 + x)^2
+        f1[0] = 1;
+        f1[1] = 2;
+        f1[2] = 1;
+        let mut f2 = vec![0i64; n]; // 1 + x^(n/2)
+        f2[0] = 1;
+        f2[n / 2] = 1;
+        let mut f3 = vec![0i64; n]; // (1 + x)^4
+        for (i, c) in [1i64, 4, 6, 4, 1].iter().enumerate() {
+            f3[i] = *c;
+        }
+        let xf1: Vec<i64> = (0..n).map(|i| if i == 0 { 0 } else { f1[i - 1] }).collect();
+        let zero = vec![0i64; n];
+        // deterministic inputs (independent of the run's seed): the failing ones are listed in KNOWN_FINDINGS.json by their digest
+        let big: Vec<i64> = (0..n as i64).map(|i| (i * 7919 + 13) % 16777213 - 8388606).collect();
+        let big2: Vec<i64> = (0..n as i64).map(|i| (i * 104729 + 7) % 16777213 - 8388606).collect();
+        let small: Vec<i64> = (0..n as i64).map(|i| (i * 37) % 81 - 40).collect();
+        for (f, g) in [(&f1, &zero), (&f1, &f1), (&f1, &xf1), (&f3, &f1)] {
+            out.emit(babai_event(f, g, &big, &big2, "ill-conditioned-fg-large-FG"));
+            out.emit(babai_event(f, g, &small, &small, "ill-conditioned-fg-small-FG"));
+        }
+        let _ = f2;
+    }
     // quotients that are exact half-integers: (F, G) = (2k+1)/2 * (f, g) with even f, g (rounding ties)
     for &n in &[2usize, 8, 64, 512] {
         let f: Vec<i64> = small_vec(&mut rng, n, 4.0).iter().map(|x| 2 * x).collect();
